@@ -8,7 +8,7 @@ VARS = ["a", "b", "p", "i", "c", "#value"]
 
 def focused_on(rng, fns, var, conds=False):
     """selector with a short path whose focus variable is var"""
-    s = S.gen_sel(rng, fns=fns, names=("a", "b", "p"), maxdepth=rng.choice([1, 1, 2]), conds=conds)
+    s = S.gen_sel(rng, fns=fns, names=("a", "b", "p"), maxdepth=rng.choice([1, 1, 2, 3]), conds=conds, values=range(0, 60))
     F = s
     while True:
         nxt = [k for k in F["kids"] if S.has_focus(k)]
@@ -43,7 +43,7 @@ def gen_case(rng, cid, mode):
         order[0] = "ovr"
     for role in order:
         v = var if rng.random() < 0.8 else rng.choice(VARS)
-        s = focused_on(rng, fns, v)
+        s = focused_on(rng, fns, v, conds=(rng.random() < 0.3))
         if role.startswith("ovr"):
             o = gen_ovr(rng, s)
             h = {"kind": "imm", "sel": s, "ovr": o}
@@ -52,6 +52,16 @@ def gen_case(rng, cid, mode):
             hs.append(W.norm_handler(h))
         else:
             hs.append(W.norm_handler({"kind": "imm", "sel": s}))
+    if mode == "api":
+        # Overlay.tweak takes one {selector: value} dict: the constant overrides are installed together, after the others
+        consts = [h for h in hs if h["ovr"]["k"] == "const"]
+        seen, uniq = set(), []
+        for h in consts:
+            key = S.sel_str(h["sel"])
+            if key not in seen:
+                seen.add(key)
+                uniq.append(h)
+        hs = [h for h in hs if h["ovr"]["k"] != "const"] + uniq
     return {"id": cid, "script": sc, "arg": rng.randint(0, 40), "handlers": hs}
 
 
